@@ -15,7 +15,7 @@
 (* its end, and one line  VERDICT {json}  is printed per case.  The        *)
 (* harness never judges.                                                   *)
 (***************************************************************************)
-EXTENDS Rtamt, Json, IOUtils, TLCExt
+EXTENDS Rtamt, Explain, Json, IOUtils, TLCExt
 
 Cases == JsonDeserialize(IOEnv.TRACE_FILE)
 NCases == Len(Cases)
@@ -33,7 +33,8 @@ tvars == <<tid, l, ms, ob, fail, info>>
 SeqToSet(s) == {s[i] : i \in 1..Len(s)}
 CfgOf(o) == [S |-> o.S, M |-> o.mode, vars |-> SeqToSet(o.vars), period |-> o.period, tol |-> o.tol]
 InitMs(c) == [i \in 1..Len(c.objs) |-> NewObj(CfgOf(c.objs[i]))]
-InitOb(c) == [i \in 1..Len(c.objs) |-> [on |-> <<>>, off |-> <<>>, offt |-> <<>>, dead |-> FALSE, gets |-> <<>>]]
+InitOb(c) == [i \in 1..Len(c.objs) |-> [on |-> <<>>, off |-> <<>>, offt |-> <<>>, dead |-> FALSE, gets |-> <<>>,
+                                        compared |-> 0, drift |-> 0]]     \* binding of the explainer model (Explain.tla)
 \* Python raises on the operations the README leaves undefined (division by zero, sqrt/log domain,
 \* overflow); when the model meets Undef in some sub-formula such an exception is "undefined", not a
 \* failure, and the object is not examined any further (its internal state is unknown)
@@ -199,10 +200,19 @@ RECURSIVE NonConstNodes(_)
 NonConstNodes(p) == IF p.op = "const" THEN 0 ELSE IF p.op = "var" THEN 1 ELSE IF p.op \in Un1 THEN 1 + NonConstNodes(p.l)
                     ELSE 1 + NonConstNodes(p.l) + NonConstNodes(p.r)
 HasDupName(p) == NonConstNodes(p) > Cardinality({q \in SubF(p) : q.op # "const"})
-ApplyExplain(m, o, e, step) ==
+\* binding diagnostic: explain() reported exactly the positions the operational model Explain!Explanation computes
+ExplainModel(m, o, e) ==
+  LET N == Len(m.ts) vs == m.cfg.vars
+      E == Explanation(m.phi, m.hist, N, m.cfg.S, m.cfg.M, {}) IN
+  IF ~ExplainOK(m.phi) \/ e.exc # NoExc THEN o
+  ELSE IF \A v \in vs : Reported(e, v) = ReportedFor(E, v) THEN [o EXCEPT !.compared = o.compared + 1]
+  ELSE [o EXCEPT !.drift = 1]
+ApplyExplain(m, o0, e, step) ==
   LET f0 == ExcClass(TRUE, e, "explain.exc", step)
       N == Len(m.ts) vs == m.cfg.vars W == m.hist
-      rho1 == m.offOut[1] IN
+      rho1 == m.offOut[1]
+      o == IF f0 = Ok /\ m.phase = "offline" /\ SignApplies(m.phi) /\ ~SatUndef(m.phi, W, N, m.cfg.S) /\ rho1 # Undef
+           THEN ExplainModel(m, o0, e) ELSE o0 IN
   \* "violated at time 0" is rtamt's own notion: negative robustness (explain() does nothing otherwise); robustness 0
   \* is neither (skipped); iff / xor are outside the fragment in which the sign of the robustness decides satisfaction
   IF f0 # Ok \/ m.phase # "offline" \/ ~SignApplies(m.phi) \/ SatUndef(m.phi, W, N, m.cfg.S) \/ rho1 = Undef \/ rho1 = 0
@@ -283,7 +293,9 @@ Verdict(c, fl) ==
    exp |-> IF fl = Ok THEN "" ELSE ToString(fl[1].exp),
    got |-> IF fl = Ok THEN "" ELSE ToString(fl[1].got),
    explained |-> Explained(c, fl),
-   undef |-> info.undef, steps |-> info.steps]
+   undef |-> info.undef, steps |-> info.steps,
+   compared |-> LET RECURSIVE SumC(_) SumC(i) == IF i > Len(ob) THEN 0 ELSE ob[i].compared + SumC(i + 1) IN SumC(1),
+   drift |-> \E i \in 1..Len(ob) : ob[i].drift # 0]
 
 \* clauses a case asks not to be examined (they belong to another property's check)
 Filt(c, fs) == SelectSeq(fs, LAMBDA f : f.clause \notin SeqToSet(c.skip))
